@@ -82,6 +82,7 @@ def cid_rows_for(fields, data_format, sheet):
     config = {"preset": data_format, "header": 0, "fields": fields, "checks": []}
     decls = readermachine.decls_for(config)
     extra = [("Sheet", str(sheet))] if data_format in ("ods", "excel") and sheet != 1 else []
+    extra.append(("Encoding", "utf-8"))  # delimited data are stored as a UTF-8 file that the reader opens itself
     checks = [["uniq", "IsUnique", fields[0]]]
     return harness.cid_rows(data_format, decls, checks, 0, extra=extra), decls
 
@@ -123,6 +124,11 @@ def judge_table(case, part):
                 results[(data_format, storage)] = [["CID", outcome]]
                 continue
             source, _ = readermachine.store(config, decls, table, name="tdata")
+            if data_format == "delimited":
+                path = os.path.join(readermachine.tmpdir(), "tdata.csv")
+                with open(path, "w", newline="", encoding="utf-8") as stream:
+                    stream.write(source.getvalue())
+                source = path
             results[(data_format, storage)] = run_rows(cid, source)
     part.validated += len(results) - 1
     reference_key = ("delimited", "csv")
